@@ -57,6 +57,7 @@ harness!(cap_try_reserve__u4f, cap_try_reserve, U4F);
 harness!(cap_try_reserve__s8_4a, cap_try_reserve, S8_4A);
 harness!(cap_try_reserve__s8_8g4, cap_try_reserve, S8_8G4);
 harness!(cap_try_reserve__s8_e, cap_try_reserve, S8_E);
+harness!(cap_try_reserve__s8m0_4a, cap_try_reserve, S8M0_4A);
 
 fn cap_reserve(sh: Shape) {
     let mut m = build_kv(sh, 1);
@@ -88,6 +89,7 @@ harness!(cap_reserve__u4f, cap_reserve, U4F);
 harness!(cap_reserve__s8_4a, cap_reserve, S8_4A);
 harness!(cap_reserve__s8_8g4, cap_reserve, S8_8G4);
 harness!(cap_reserve__s8_e, cap_reserve, S8_E);
+harness!(cap_reserve__s8m0_4a, cap_reserve, S8M0_4A);
 
 fn cap_shrink(sh: Shape, fit: bool) {
     let mut m = build_kv(sh, 1);
@@ -127,8 +129,10 @@ fn cap_shrink_to_fit(sh: Shape) {
 harness!(cap_shrink_to__u16_2, cap_shrink_to, U16_2);
 harness!(cap_shrink_to__s16_4a, cap_shrink_to, S16_4A);
 harness!(cap_shrink_to__s8_e, cap_shrink_to, S8_E);
+harness!(cap_shrink_to__s8m0_4a, cap_shrink_to, S8M0_4A);
 harness!(cap_shrink_to_fit__s16_4a, cap_shrink_to_fit, S16_4A);
 harness!(cap_shrink_to_fit__s8_e, cap_shrink_to_fit, S8_E);
+harness!(cap_shrink_to_fit__s8m0_4a, cap_shrink_to_fit, S8M0_4A);
 harness!(cap_shrink_to_fit__u8_3t, cap_shrink_to_fit, U8_3T);
 
 #[kani::proof]
